@@ -75,6 +75,7 @@ type Scenario struct {
 	Overhead [3]int  `json:"overhead"` // launch, subsequent launch, kernel completion
 	Probe    bool    `json:"probe"`
 	Alg      string  `json:"alg,omitempty"` // "", "round-robin", "greedy", "partition" (the last two need the verif hook)
+	PortCap  int     `json:"portcap,omitempty"` // capacity of the CP's ToCUs port buffers (0 = the builder's 4096; else needs the hook)
 	Steps    []Step  `json:"steps"`
 }
 
@@ -139,6 +140,7 @@ type run struct {
 	count    map[string]int
 	awaited  map[string]int
 	nev      int
+	pcap     int
 	evScale  int
 	runaway  bool
 	stats    map[string]int
@@ -239,7 +241,10 @@ func newRun(rec *ab.Recorder, sc *Scenario, emu bool) *run {
 	r := &run{rec: rec, eng: ab.NewEngine(), cfg: sc.CUs, cuIndex: map[sim.RemotePort]int{},
 		byPacket: map[*kernels.HsaKernelDispatchPacket]*kernel{}, byReqID: map[string]*kernel{},
 		maps: map[string]*mapInfo{}, byWG: map[[2]int]*mapInfo{}, count: map[string]int{}, awaited: map[string]int{},
-		stats: map[string]int{}, evScale: 1}
+		stats: map[string]int{}, evScale: 1, pcap: 4096}
+	if sc.PortCap > 0 {
+		r.pcap = sc.PortCap
+	}
 	rec.ResetIDs()
 	b := cp.MakeBuilder().WithEngine(r.eng).WithFreq(1 * sim.GHz).
 		WithConstantKernelLaunchOverhead(sc.Overhead[0]).
@@ -267,16 +272,26 @@ func newRun(rec *ab.Recorder, sc *Scenario, emu bool) *run {
 	if nd <= 0 || nd > len(r.cp.Dispatchers) {
 		nd = len(r.cp.Dispatchers)
 	}
-	if sc.Alg != "" && sc.Alg != "round-robin" {
-		rebuildDispatchers(r.cp, sc.Alg, nd, all, sc.Overhead)
+	if sc.PortCap > 0 || (sc.Alg != "" && sc.Alg != "round-robin") {
+		alg := sc.Alg
+		if alg == "" {
+			alg = "round-robin"
+		}
+		if sc.PortCap > 0 {
+			// a CP whose CU-facing port holds only a few messages: the hook builds the dispatchers on the
+			// port found in the (public) field ToCUs
+			r.cp.ToCUs = sim.NewPort(r.cp, 4096, sc.PortCap, "CP.ToCUs")
+		}
+		rebuildDispatchers(r.cp, alg, nd, all, sc.Overhead)
 	} else {
 		r.cp.Dispatchers = r.cp.Dispatchers[:nd] // public field: fewer dispatchers than the builder's 8
 	}
 	conn := ab.NewConn("Conn")
-	for _, n := range []string{"ToDriver", "ToDispatcher", "ToCUs", "ToTLBs", "ToRDMA", "ToPMC", "ToAddressTranslators", "ToCaches"} {
+	for _, n := range []string{"ToDriver", "ToDispatcher", "ToTLBs", "ToRDMA", "ToPMC", "ToAddressTranslators", "ToCaches"} {
 		conn.PlugIn(r.cp.GetPortByName(n))
 	}
-	r.toDriver, r.toCUs = r.cp.GetPortByName("ToDriver"), r.cp.GetPortByName("ToCUs")
+	conn.PlugIn(r.cp.ToCUs)
+	r.toDriver, r.toCUs = r.cp.GetPortByName("ToDriver"), r.cp.ToCUs
 	r.drvPort = sim.NewPort(nil, 1, 1, "Driver.ToGPUs")
 	r.cp.Driver = r.drvPort
 
@@ -942,6 +957,120 @@ func (r *run) random(rng *rand.Rand, nlaunch int, xbatch bool) {
 	}
 }
 
+// parkScenario: CUs whose LDS one work-group of the "serial" kernel takes entirely, so that its work-groups
+// follow one another, and room for any number of resource-free filler work-groups.  With the verif hook the
+// port holds 1-3 messages and all three placements are used; without it the builder's 4096-entry port is
+// filled for real (round-robin only).
+func parkScenario(rng *rand.Rand, i int) *Scenario {
+	sc := &Scenario{NDisp: pick(rng, 2, 3, 8), Overhead: [3]int{rng.Intn(2), rng.Intn(2), 1 + rng.Intn(2)}}
+	ncu := pick(rng, 1, 1, 2, 3)
+	slots := 64
+	if hookAvailable {
+		sc.PortCap = 1 + i%3
+		sc.Alg = []string{"round-robin", "greedy", "partition"}[(i/3)%3]
+	} else {
+		slots = 4200 / ncu
+	}
+	lds := granL * pick(rng, 1, 2)
+	for j := 0; j < ncu; j++ {
+		sc.CUs = append(sc.CUs, CUCfg{Slots: []int{slots, slots}, SRegs: granS * 8, VRegs: []int{granV * 8, granV * 8}, LDS: lds})
+	}
+	return sc
+}
+
+// park: bring a kernel to the point where all its work-groups but the last are mapped, fill the ToCUs port
+// with another kernel's map requests that the CUs do not take, then let every resident work-group of the
+// first kernel complete: its last work-group gets reserved but its MapWGReq finds the port full.  The CP must
+// keep the kernel open until that work-group was sent and has completed.
+func (r *run) park(rng *rand.Rand) {
+	ncu := len(r.cfg)
+	serial := KDesc{WG: [3]int{64, 1, 1}, Grid: [3]int{64 * (ncu + 1 + rng.Intn(2)), 1, 1}, S: pick(rng, 0, 16), V: 4, L: r.cfg[0].LDS, PID: 1}
+	filler := KDesc{WG: [3]int{64, 1, 1}, S: 0, V: 0, L: 0, PID: 2}
+	if rng.Intn(2) == 0 { // sometimes a small kernel first, so that the serial one sits on a higher dispatcher
+		r.launch(KDesc{WG: [3]int{64, 1, 1}, Grid: [3]int{64, 1, 1}, PID: 3})
+	}
+	r.launch(serial)
+	ks := r.kernels[len(r.kernels)-1]
+	unmapped := func() int {
+		n := 0
+		for _, w := range ks.wgs {
+			if r.byWG[[2]int{ks.id, w[0]}] == nil {
+				n++
+			}
+		}
+		return n
+	}
+	// run the serial kernel (and whatever else) until exactly its last work-group waits for LDS
+	for i := 0; i < 4000 && !r.dead && unmapped() > 1; i++ {
+		for r.takeMap() {
+		}
+		if r.eng.Pending() == 0 { // CP asleep: every CU holds one serial work-group; finish the oldest one
+			var oldest *mapInfo
+			for c := range r.resident {
+				for _, mi := range r.resident[c] {
+					if mi.k == ks.id && (oldest == nil || mi.m < oldest.m) {
+						oldest = mi
+					}
+				}
+			}
+			if oldest != nil {
+				r.complete(oldest.cu-1, []*mapInfo{oldest})
+			}
+		}
+		for c := range r.resident { // other kernels' work-groups finish at once
+			for _, mi := range append([]*mapInfo{}, r.resident[c]...) {
+				if mi.k != ks.id {
+					r.complete(c, []*mapInfo{mi})
+				}
+			}
+		}
+		for r.takeRsp() {
+		}
+		r.tick(1)
+	}
+	if r.dead || unmapped() != 1 {
+		r.stats["park_not_reached"]++
+		return
+	}
+	for r.takeMap() {
+	}
+	// fill the port: the CUs stop taking map requests
+	nfill := r.portRoom() + 8 + rng.Intn(8)
+	filler.Grid = [3]int{64 * nfill, 1, 1}
+	r.launch(filler)
+	for i := 0; i < 2000 && !r.dead && r.toCUs.CanSend(); i++ {
+		r.tick(1)
+	}
+	if r.dead || r.toCUs.CanSend() {
+		r.stats["park_not_reached"]++
+		return
+	}
+	// every resident work-group of the serial kernel completes, in random order
+	var res []*mapInfo
+	for c := range r.resident {
+		for _, mi := range r.resident[c] {
+			if mi.k == ks.id {
+				res = append(res, mi)
+			}
+		}
+	}
+	rng.Shuffle(len(res), func(a, b int) { res[a], res[b] = res[b], res[a] })
+	for _, mi := range res {
+		r.complete(mi.cu-1, []*mapInfo{mi})
+		r.tick(rng.Intn(2))
+	}
+	r.tick(4 + rng.Intn(4)) // the last work-group is reserved, its MapWGReq is parked; the kernel must stay open
+	r.stats["parked_runs"]++
+	if rng.Intn(2) == 0 { // a further launch may land on the same dispatcher
+		r.launch(KDesc{WG: [3]int{64, 1, 1}, Grid: [3]int{128, 1, 1}, PID: 3})
+		r.tick(3)
+	}
+}
+
+// portRoom: how many more messages the ToCUs outgoing buffer takes (probing with copies is not possible, so
+// the capacity is taken from the scenario).
+func (r *run) portRoom() int { return r.pcap }
+
 // big: a few overlapping kernels of hundreds of work-groups on many CUs; the CUs finish work-groups in
 // random order, a random fraction per cycle.
 func (r *run) big(rng *rand.Rand) {
@@ -993,6 +1122,7 @@ func main() {
 	xbatch := flag.Int("xbatch", 0, "every n-th random run lets CUs batch completions of different kernels (0 = never)")
 	nemu := flag.Int("emu", 0, "number of runs with real emulation CUs")
 	nbig := flag.Int("big", 0, "number of runs with 16-64 CUs of the shipped shape and kernels of hundreds of work-groups")
+	npark := flag.Int("park", 0, "number of scripted runs that park a kernel's last work-group behind a full ToCUs port (small ports and other algorithms than round-robin need the verif hook)")
 	algs := flag.String("alg", "", "comma-separated placement algorithms the random runs rotate through (needs the verif hook)")
 	flag.BoolVar(&verbose, "v", false, "debugging: log scenario steps into the trace (such a trace is not validated)")
 	flag.Parse()
@@ -1013,7 +1143,12 @@ func main() {
 		if sc.Alg == "partition" {
 			wc = 0
 		}
-		rec.Emit("Reset", ab.Rec{"cus": sc.CUs, "ndisp": sc.NDisp, "overhead": sc.Overhead, "emu": emu, "alg": sc.Alg, "wc": wc})
+		pcap := 4096
+		if sc.PortCap > 0 {
+			pcap = sc.PortCap
+		}
+		rec.Emit("Reset", ab.Rec{"cus": sc.CUs, "ndisp": sc.NDisp, "overhead": sc.Overhead, "emu": emu, "alg": sc.Alg, "wc": wc,
+			"pcap": pcap})
 		traces++
 		return newRun(rec, sc, emu)
 	}
@@ -1058,6 +1193,9 @@ func main() {
 		sc := randomCfg(rng)
 		if len(algList) > 0 {
 			sc.Alg = algList[i%len(algList)]
+			if i%4 != 3 { // mostly with a ToCUs port of 1-3 entries: MapWGReqs get parked behind a full port
+				sc.PortCap = 1 + rng.Intn(3)
+			}
 			if sc.Alg == "partition" { // partitions are pinned to CUs: only meaningful with identical CUs
 				for j := range sc.CUs {
 					sc.CUs[j] = sc.CUs[0]
@@ -1067,6 +1205,15 @@ func main() {
 		r := begin(sc, false)
 		r.random(rng, 1+rng.Intn(*nl), *xbatch > 0 && i%*xbatch == *xbatch-1)
 		end(r, sc.Probe)
+	}
+	for i := 0; i < *npark; i++ {
+		sc := parkScenario(rng, i)
+		r := begin(sc, false)
+		if sc.PortCap == 0 {
+			r.evScale = 5
+		}
+		r.park(rng)
+		end(r, false)
 	}
 	for i := 0; i < *nbig; i++ {
 		sc := &Scenario{NDisp: pick(rng, 2, 4, 8), Overhead: [3]int{rng.Intn(3), rng.Intn(3), 1 + rng.Intn(3)}, Probe: true}
